@@ -2,6 +2,7 @@ from __future__ import annotations
 
 import ast
 import enum
+import re
 import sys
 from collections.abc import Callable
 from typing import TYPE_CHECKING, Any, ClassVar, Literal, NoReturn, TypeVar, cast
@@ -585,7 +586,31 @@ class Parser:
         path_tok = self._strip_path_prefix(a)
         if path_tok:
             self._path_token = path_tok
+        self._decode_fstring_parts(b, raw="r" in a.string.rstrip("'\"").lower())
         return ast.JoinedStr(values=b, **locs)
+
+    _fstring_escape = re.compile(r"\\(?:N\{[^{}]*\}|[0-7]{1,3}|x[0-9a-fA-F]{0,2}|u[0-9a-fA-F]{0,4}|U[0-9a-fA-F]{0,8}|[^{}])|\{\{|\}\}", re.S)
+
+    def _decode_fstring_parts(self, values: list[ast.FormattedValue | ast.Constant], raw: bool) -> None:
+        """Literal parts arrive as source text: undo doubled braces and, unless the f-string is raw, escapes."""
+
+        def unescape(m: re.Match[str]) -> str:
+            text = m.group()
+            if text in ("{{", "}}"):
+                return text[0]
+            if raw:
+                return text
+            quote = "'''" if '"' in text else '"""'
+            return cast(str, ast.literal_eval(quote + text + quote))
+
+        for part in values:
+            if isinstance(part, ast.Constant):
+                try:
+                    part.value = self._fstring_escape.sub(unescape, part.value)
+                except SyntaxError as e:
+                    self.raise_syntax_error_known_location(e.msg, part)
+            elif isinstance(part.format_spec, ast.JoinedStr):
+                self._decode_fstring_parts(part.format_spec.values, raw)
 
     @staticmethod
     def _is_bytes_literal(part: ast.JoinedStr | TokenInfo) -> bool:
